@@ -56,6 +56,9 @@ type Call struct {
 	MD      []KV   `json:"md,omitempty"`
 	// attachment source behaviour (C14): "" exact, "short:<n>", "long:<n>", "fail:<n>"
 	Src string `json:"src,omitempty"`
+	// a call the writer must refuse with an error and without any effect: a message on a channel the writer was never
+	// given, a channel whose schema it was never given
+	Refused bool `json:"refused,omitempty"`
 	// op "chunk" (WriteChunkWithIndexes with a chunk the caller assembled): the schema / channel / message records
 	// placed in it, its compression ("", "zstd", "lz4") and how the message indexes are handed over:
 	// "exact" (one per channel, order of first appearance), "rev" (exact, reversed order), "extra" (exact plus
